@@ -377,6 +377,10 @@ def diff_trees(a, b, path=''):
     if kind in ('n', 'u', 'o', 'l') and len(ca) != len(cb):
         # an absent value where a scaled quantity (float) should be is also C10's business
         isf = kind == 'n' and any(isinstance(x[1], str) and x[0] == 'f' for x in ca + cb)
+        # an integer-valued field (time stamp, heading, altitude ...) that the model reports and the implementation
+        # does not: a transmitted value is not reported, which is C04's business as well as C11's
+        if kind == 'n' and not isf and len(ca) < len(cb) and any(isinstance(x[1], str) and x[0] in 'iz' for x in cb):
+            return [(path + 'n#i', show(a), show(b))]
         # a list on which the implementation reports fewer elements than were transmitted: the values of
         # the missing elements are not reported, which is C04's business as well as C14's
         short = kind in ('l', 'o') and len(ca) < len(cb)      # fewer list elements / an optional block missing
@@ -404,6 +408,8 @@ def attribute(path):
         return props
     if path.endswith('#f'):
         return {'C11', 'C10'}
+    if path.endswith('n#i'):
+        return {'C11', 'C04'}
     if path.endswith('t#n'):
         return {'C14'}
     if path.endswith('#<'):
